@@ -247,7 +247,7 @@ def mon_C05(st):
                 a = t.arg
                 ok = a.startswith(pre) and a[len(pre):].isdigit()
                 idx = int(a[len(pre):]) if ok else None
-                if not ok or idx >= n or r.items[idx] != "0":
+                if not ok or idx >= n or r.items[idx] not in "03":
                     out.append(("wrong-element", t.S, f"pool {pi} {r.name}: task {tid} called with {a}"))
                     continue
                 if idx <= last:
